@@ -169,6 +169,7 @@ class Interp:
         self.depth = 0
         self.for_value = FREE     # what a `for` pattern / the parameter of an `all`/`any` closure is bound to
         self.max_paths = MAX_PATHS
+        self.compound = None      # optional (place, op, current, operand) -> new value, for rule-specific symbolic arithmetic
         self.field_vars = set()   # field names tracked like variables (`self.a.flag` -> "$f:flag"), whatever their base
 
     # ------------------------------------------------------------------ entry
@@ -594,6 +595,27 @@ class Interp:
         if op in ("&&", "||"):
             r, esc = self.cond(e, st)
             return [Out("val", b, s) for b, s in r] + esc
+        if op in ("+=", "-=", "|=", "&=", "*=") and self._place(e["l"]) is not None:
+            # compound assignment to a tracked place
+            pl = self._place(e["l"])
+            res = []
+            for o in self.ev(e["r"], st):
+                if o.kind != "val":
+                    res.append(o)
+                    continue
+                cur, b = o.st.env.get(pl, UNK), o.value
+                if self.compound is not None:
+                    nv = self.compound(pl, op, cur, b)
+                elif is_unknown(cur) or is_unknown(b):
+                    nv = UNK if (cur == UNK or b == UNK) else FREE
+                else:
+                    try:
+                        nv = {"+=": lambda x, y: x + y, "-=": lambda x, y: x - y, "|=": lambda x, y: x or y if isinstance(x, bool) else x | y,
+                              "&=": lambda x, y: x and y if isinstance(x, bool) else x & y, "*=": lambda x, y: x * y}[op](cur, b)
+                    except TypeError:
+                        nv = UNK
+                res.append(Out("val", UNIT, o.st.set(pl, nv)))
+            return res
         acc, esc = self._seq([e["l"], e["r"]], st)
         res = list(esc)
         for (a, b), s in acc:
@@ -933,6 +955,30 @@ class Interp:
             self.depth -= 1
         return [Out("val", o.value if o.kind in ("val", "ret") else UNK, St(st.env, o.st.events, o.st.tainted, o.st.approx)) for o in outs]
 
+    def call_method(self, fn, args, st):
+        """like call_fn, but the tracked fields (`$f:..`) are shared with the caller: the callee works on the same object"""
+        env = {k_: v_ for k_, v_ in st.env.items() if k_.startswith("$")}
+        env["self"] = st.env.get("self", FREE)
+        names = [n_ for n_ in fn.param_names() if n_ != "self"]
+        for n_, a in zip(names, list(args) + [FREE] * len(names)):
+            if n_:
+                env[n_] = a
+        self.depth += 1
+        try:
+            if self.depth > 6:
+                return [Out("val", UNK, st.taint())]
+            outs = self.ev(fn.body, St(env, st.events, st.tainted, st.approx))
+        finally:
+            self.depth -= 1
+        res = []
+        for o in outs:
+            env2 = dict(st.env)
+            for k_, v_ in o.st.env.items():
+                if k_.startswith("$"):
+                    env2[k_] = v_
+            res.append(Out("val", o.value if o.kind in ("val", "ret") else UNK, St(env2, o.st.events, o.st.tainted, o.st.approx)))
+        return res
+
     def _e_mcall(self, e, st):
         m = e["m"]
         res = []
@@ -944,6 +990,13 @@ class Interp:
             vals = [o.value for o in self.ev(e["args"][0], st) if o.kind == "val"]
             if len(vals) == 1 and isinstance(vals[0], str) and len(vals[0]) == 1:
                 return [Out("val", UNIT if m == "push" else ("Ok", UNIT), st.event(("write", vals[0])))]
+        if m in self.inline and e["recv"].get("k") == "path" and e["recv"]["segs"] == ["self"] and self.inline[m].params and self.inline[m].params[0].get("self"):
+            # a private method of the same type: entered with the same tracked fields
+            acc, esc = self._seq(e["args"], st)
+            res += esc
+            for vals, s2 in acc:
+                res += self.call_method(self.inline[m], vals, s2)
+            return res
         for o in self.ev(e["recv"], st):
             if o.kind != "val":
                 res.append(o)
